@@ -806,6 +806,7 @@ class PathState:
         self._sqrt_cache = {}
         self._div_cache = {}
         self._cleanups = []
+        self.n_assumes = 0           # preconditions / stub postconditions assumed on this path (reported in the evidence)
         self.results = []            # buffered ensure results, committed by the explorer if this shard owns the path
         self.covers = []
 
@@ -966,6 +967,7 @@ class PathState:
 
     def assume(self, cond):
         t = _b(cond)
+        self.n_assumes += 1
         self._add(t)
 
     def _check(self, *extra):
@@ -1172,6 +1174,7 @@ class Explorer:
                 ob.violations.append(viol)
             else:
                 ob.undecided.append(dict(reason="solver unknown/timeout", decisions=list(st.decisions)))
+        rep.notes["assumes_max_per_path"] = max(rep.notes.get("assumes_max_per_path", 0), st.n_assumes)
         cv = rep.notes.setdefault("covers", {})
         for c in st.covers:
             cv[c] = cv.get(c, 0) + 1
